@@ -185,7 +185,11 @@ theorem ram_eqv {s t : State} (he : Eqv s t) :
       rw [this] at hl
       simp only [withAux_absTrig, f.2.2.2.1]; exact he.trig hl⟩, rfl⟩
 
-theorem addPhase2_eqv {extra : List Key} {s t : State} (h : IInv extra s) (he : Eqv s t) (k : Key) (m : Mapping) :
+/-- (D5 fix) `hp`: no pass-through key is mentioned by `m` — true right after the first consumption, the only
+place `addPhase2` is used; without it the two states could take different `should_absorb` branches, one of
+which consumes a second time. -/
+theorem addPhase2_eqv {extra : List Key} {s t : State} (h : IInv extra s) (he : Eqv s t) (k : Key) (m : Mapping)
+    (hp : ∀ x, x ∈ s.pass → x ∉ m.frm ∧ x ∉ m.to) :
     Eqv (addPhase2 s k m).1 (addPhase2 t k m).1 ∧ (addPhase2 s k m).2 = (addPhase2 t k m).2 := by
   cases ha : isActionMapping m
   · rw [addPhase2_nonaction s k m ha, addPhase2_nonaction t k m ha]; exact ⟨he, rfl⟩
@@ -199,20 +203,26 @@ theorem addPhase2_eqv {extra : List Key} {s t : State} (h : IInv extra s) (he : 
       have hl1 : live (releaseActionMappings s).1 = [] := hlive ▸ hl
       have hl2 : live (releaseActionMappings t).1 = [] := r.1.liveEq ▸ hl1
       have hit := hi.of_equiv r.1
-      have key : ∀ (u : State) (hu : IInv extra (releaseActionMappings u).1) (hlu : live (releaseActionMappings u).1 = []),
+      have key : ∀ (u : State) (hu : IInv extra (releaseActionMappings u).1) (hlu : live (releaseActionMappings u).1 = [])
+          (hpu : ∀ x, x ∈ u.pass → x ∉ m.frm ∧ x ∉ m.to),
           (addPhase2 u k m).2 = (releaseActionMappings u).2 ∧
           (addPhase2 u k m).1.inp = (releaseActionMappings u).1.inp ∧
           (addPhase2 u k m).1.active = (releaseActionMappings u).1.active ∧
           (addPhase2 u k m).1.pass = (releaseActionMappings u).1.pass ∧
           (addPhase2 u k m).1.mapped = (releaseActionMappings u).1.mapped ∧
           live (addPhase2 u k m).1 = [] := by
-        intro u hu hlu
+        intro u hu hlu hpu
         cases hb : shouldAbsorb u k
         · rw [addPhase2_noabsorb u k m ha hb]; exact ⟨rfl, rfl, rfl, rfl, rfl, hlu⟩
         · rw [addPhase2_absorb u k m ha hb, releaseAbsorbedKeys_no_live hu hlu]
+          have hp' : ∀ x, x ∈ (withAux (releaseActionMappings u).1 [] none (releaseActionMappings u).1.repTrig).pass →
+              x ∉ m.frm ∧ x ∉ m.to := by
+            intro x hx; simp [releaseActionMappings] at hx; exact hpu x hx.1
+          have n := afterConsume_noop _ m hp'
+          rw [n.1, n.2]
           exact ⟨by simp, rfl, rfl, rfl, rfl, by simp [live]⟩
-      have ks := key s hi hl1
-      have kt := key t hit hl2
+      have ks := key s hi hl1 hp
+      have kt := key t hit hl2 (he.pass ▸ hp)
       refine ⟨⟨?_, ?_, ?_, ?_, ?_, ?_⟩, ?_⟩
       · rw [ks.2.1, kt.2.1]; exact r.1.inp
       · rw [ks.2.2.1, kt.2.2.1]; exact r.1.active
@@ -227,7 +237,8 @@ theorem addPhase2_eqv {extra : List Key} {s t : State} (h : IInv extra s) (he : 
       · rw [addPhase2_noabsorb s k m ha hb, addPhase2_noabsorb t k m ha (hsa ▸ hb)]; exact r
       · rw [addPhase2_absorb s k m ha hb, addPhase2_absorb t k m ha (hsa ▸ hb)]
         have q := releaseAbsorbedKeys_equiv hi r.1
-        exact ⟨q.2, by rw [r.2, q.1]⟩
+        have q3 := afterConsume_eqv q.2 m
+        exact ⟨q3.1, by rw [r.2, q.1, q3.2]⟩
 
 theorem addAbsorbed_filter (p : Key → Bool) (a b : List Key) :
     (addAbsorbed a b).filter p = addAbsorbed (a.filter p) (b.filter p) := by
@@ -391,7 +402,7 @@ theorem newlyPress_eqv (L : Layout) {s t : State} (h : IInv [] s) (he : Eqv s t)
     have ft := newlyPress_fire_finish hft
     have e1 := afterConsume_eqv he0 m
     have c1 := (consume_spec (pressPrep s k) m h0).1
-    have e2 := addPhase2_eqv c1 e1.1 k m
+    have e2 := addPhase2_eqv c1 e1.1 k m (afterConsume_clear (pressPrep s k) m)
     have hks : k ∉ (addPhase2 (afterConsume (pressPrep s k) m) k m).1.absorbed :=
       fun hx => hka s (addPhase2_absorbed_sub _ k m c1 k hx)
     have c1t := c1.of_equiv e1.1
